@@ -112,6 +112,7 @@ func runC06(c *Ctx) {
 		}
 	}
 	importRules(c, runC08, map[string]string{"C08.R1": "C06.R8", "C08.R2": "C06.R8"}, map[string]string{"C06.R8": "rules disabled by badfilter never survive the filter, whatever their position (shared with C08.R1/R2)"})
+	checkDocumentOnly(c, "C06.R9")
 	inl := inlineOnly("(*rules.NetworkRule).isDocumentWhitelistRule", "(*rules.NetworkRule).IsOptionEnabled", "(*rules.NetworkRule).IsGeneric")
 	nilOf := func(u *U, e *E) *E { return u.mk("nil", "", e.Typ) }
 
@@ -637,4 +638,81 @@ func loopCtlSub(u *U, s *Summary, loops []*Loop, cond Ref, sub map[string]*E) {
 			sub[at.key] = u.Bool(False)
 		}
 	}
+}
+
+// checkDocumentOnly: the document-level modifiers restrict a rule to document
+// requests.  Without the restriction a page-level exception ($genericblock,
+// $urlblock, $elemhide, ...) also matches the page's sub-requests and becomes
+// their basic rule, overriding blocking rules it was never meant to touch.
+func checkDocumentOnly(c *Ctx, rule string) {
+	c.Rule(rule, "TBL/PDT", "rules with a document-level modifier apply to document requests only", 1)
+	lo := c.P.Method("rules", "NetworkRule", "loadOptions")
+	if lo == nil {
+		c.Fail(rule, "anchor:NetworkRule.loadOptions", token.NoPos, "unresolved anchor")
+		return
+	}
+	a := &anchors{c: c, rule: rule}
+	kDoc, _ := a.constInt("rules", "TypeDocument")
+	names := []string{"OptionJsinject", "OptionElemhide", "OptionContent", "OptionUrlblock", "OptionGenericblock", "OptionGenerichide", "OptionExtension", "OptionPopup"}
+	want := map[int64]string{}
+	for _, n := range names {
+		if v, ok := a.constInt("rules", n); ok {
+			want[v] = n
+		}
+	}
+	if a.bad {
+		return
+	}
+	c.Fn(FuncName(lo))
+	g := NewGate(c.P)
+	g.Inline = inlineOnly("(*rules.NetworkRule).IsOptionEnabled")
+	s := g.Eval(lo)
+	u := g.U
+	bad := "loadOptions never restricts a rule to document requests"
+	for _, ef := range s.Effects {
+		if ef.Kind != "store" || ef.Addr.Op != "faddr" || ef.Addr.Aux != "permittedRequestTypes" || !isIntConst(ef.Val, kDoc) {
+			continue
+		}
+		bad = ""
+		got := map[int64]bool{}
+		disj := False
+		for _, at := range u.AtomsOf(ef.Cond) {
+			if at.Op == "eq" && at.Args[0].Op == "bin" && at.Args[0].Aux == "&" {
+				if b, ok := at.Args[1].IntVal(); ok {
+					if m, ok2 := at.Args[0].Args[0].IntVal(); (ok2 && m == b) || func() bool { m2, ok3 := at.Args[0].Args[1].IntVal(); return ok3 && m2 == b }() {
+						got[b] = true
+						disj = u.bdd.Or(disj, u.Atom(at))
+					}
+				}
+			}
+		}
+		for b, n := range want {
+			if !got[b] {
+				bad = "a rule with $" + strings.ToLower(strings.TrimPrefix(n, "Option")) + " is not restricted to document requests: it also matches the page's sub-requests and is selected as their basic rule"
+			}
+		}
+		for b := range got {
+			if _, ok := want[b]; !ok && bad == "" {
+				bad = fmt.Sprintf("option bit %#x restricts the rule to document requests although it is not a document-level modifier", b)
+			}
+		}
+		if bad == "" {
+			// the restriction is applied whenever one of the options is set (other atoms: the loop over the
+			// option list has ended without an error)
+			rest := ef.Cond
+			for _, at := range u.AtomsOf(ef.Cond) {
+				isOpt := false
+				if at.Op == "eq" && at.Args[0].Op == "bin" && at.Args[0].Aux == "&" {
+					isOpt = true
+				}
+				if !isOpt {
+					rest = u.bdd.Exists(rest, u.atomIx[at.key])
+				}
+			}
+			if rest != disj {
+				bad = "the restriction to document requests is not applied exactly when one of the document-level modifiers is enabled"
+			}
+		}
+	}
+	c.Check(bad == "", rule, "loadOptions: jsinject/elemhide/content/urlblock/genericblock/generichide/extension/popup => document requests only", lo.Pos(), "condition of permittedRequestTypes = TypeDocument equals the disjunction of the eight option tests", bad)
 }
